@@ -8,15 +8,24 @@ from props import c01, c08
 ID = 'C07'
 LEAN_MODULES = ['PybtexModel.Props.C07']
 THEOREMS = {
-    'C07_one_per_citation': 'exactly one formatted entry per resolved citation: the formatted keys are a permutation of the entries denoted by the resolved, present citations; no resolved citation loses its entry',
+    'C07_one_per_citation': 'exactly one formatted entry per resolved citation: the formatted keys are a permutation of the entries denoted by the resolved, present citations; no resolved citation loses its entry; same number of entries',
+    'C07_no_duplicates': 'for well-formed entries no two formatted entries have the same key up to case (from C05_no_dup)',
     'C07_order_none': 'sorting style none: the formatted entries come in the order of the resolved citations',
-    'C07_key_order': 'the comparison of author_year_title (Python < on the key triples) is a strict total order',
+    'C07_key_order': 'the comparison of author_year_title (Python < on strings and on the key triples) is a strict total order',
     'C07_order_ayt': 'sorting style author_year_title: the output is a permutation of the resolved entries, sorted by the key triple, entries with equal triples keep their citation order (stable)',
     'C07_sort_generic': 'the insertion sort modelling sorted() returns a sorted, stable permutation for any strict weak order',
     'C07_number_labels': 'number labels are "1" .. "n" in output order and pairwise distinct (decimal notation is injective)',
     'C07_alpha_labels_partial': 'alpha labels = base labels run through the suffix loop; pairwise distinct provided no unique base label equals a repeated base label plus one of its suffix letters and no label repeats more than 26 times',
     'C07_alpha_suffix_partial': 'the suffix loop alone: no repetition under the proviso, for any list of base labels',
     'C07_alpha_labels_neg': 'witness: base labels ab, ab, aba get the labels aba, abb, aba (finding C07-alpha-suffix-collision)',
+    'C07_fuel_irrelevant': 'the fuel bound of the evaluator never influences a result other than out-of-fuel',
+    'C07_optional_never_missing': 'optional[...] never propagates a missing field',
+    'C07_missing_required_eval': 'a FieldIsMissing(f) of the evaluator names a field/names node outside every optional whose lookup fails (field: along the crossref chain; names: the entry\'s own persons); if all required lookups succeed no such error occurs',
+    'C07_missing_iff': 'exact: the evaluation fails with FieldIsMissing(f) iff, going left to right (first_of lazily, never into a failing optional), the first node that fails is a field/names node named f whose lookup finds nothing',
+    'C07_missing_required': 'pipeline: a FieldIsMissing error names the field and the key of the first entry (in formatting order) whose template fails, all earlier entries having been formatted',
+    'C07_terminated': 'a template built from sentences (endsInSentence, decidable syntactic condition) evaluates to a text that is empty or ends with . ? or !; lifted to every formatted entry',
+    'C07_protected_case': 'from_latex puts brace groups under Protected; lower/upper/capfirst/capitalize/dashify, field apply_funcs and sentence post-processing leave the protected atoms exactly as they are',
+    'C07_field_coverage': 'for ALL templates: every field node on the successful evaluation path has a value whose text occurs contiguously in the output (up to case under capfirst/capitalize sentences); the value text is the field string without braces (none), equal up to case (lower/capitalize), equal up to dashes (dashify); lifted to every formatted entry',
 }
 RULE = ('databases over all seventeen entry types, each entry with a random subset of the fields its template reads (values with braces, '
         'hyphens, punctuation; persons in all name forms; cross-references), every citation list shape (subset / permutation / "*" / '
@@ -469,7 +478,16 @@ def c01_norm(s):
 
 KNOWN_MATCHERS = {
     'C07-alpha-suffix-collision': lambda case, io, f: f.startswith('labels: alpha') and f.endswith('[suffixed label equals another label]'),
+    'C07-blank-field-in-unterminated': lambda case, io, f: f.startswith('terminated: entry ') and f.rstrip("'").endswith(' In') and _has_blank_field(case, f),
 }
+
+
+def _has_blank_field(case, f):
+    m = re.match(r"terminated: entry '([^']*)'", f)
+    for e in case['entries']:
+        if m and e['key'] == m.group(1):
+            return any(not v.replace('{', '').replace('}', '').strip() for _n, v in e['fields'])
+    return False
 
 
 def buckets(case, io):
@@ -497,7 +515,7 @@ def corpus():
     return out
 
 
-def gen_entry(rng, key, keys):
+def gen_entry(rng, key, keys, blanks=False):
     t = rng.choice(TYPES)
     fields = []
     rich = rng.random() < 0.75
@@ -505,7 +523,7 @@ def gen_entry(rng, key, keys):
         p = (0.9 if f in ('title', 'year') else 0.35) if not rich else (0.97 if f in ('title', 'year', 'journal', 'publisher', 'booktitle',
              'school', 'institution', 'note', 'howpublished', 'url', 'organization') else 0.6)
         if rng.random() < p:
-            fields.append([f, rng.choice(VALUES.get(f, GENERIC))])
+            fields.append([f, rng.choice(VALUES.get(f, GENERIC)) if not blanks or rng.random() < 0.6 else rng.choice(['', '', ' ', '{}'])])
     for role in ('author', 'editor'):
         if rng.random() < ((0.7 if role == 'author' else 0.35) if not rich else 0.93):
             n = rng.choice([1, 1, 2, 3, 5])
@@ -520,8 +538,9 @@ def gen_case(rng):
     n = rng.randint(1, 6)
     keys = ['k%d' % i for i in range(n)]
     entries = []
+    blanks = rng.random() < 0.15      # databases with fields that are present but empty
     for i, k in enumerate(keys):
-        entries.append(gen_entry(rng, k, keys[i + 1:]))     # parents after children
+        entries.append(gen_entry(rng, k, keys[i + 1:], blanks))     # parents after children
     r = rng.random()
     if r < 0.25:
         cites = ['*']
@@ -549,6 +568,19 @@ def gen_cases(tier, rng, info):
         for st in STYLES:
             cases.append({'op': 'pystyle', 'entries': [{'type': t, 'key': 'full', 'fields': full}], 'citations': ['full'], 'min_crossrefs': 2, 'style': st})
         cases.append({'op': 'pystyle', 'entries': [{'type': t, 'key': 'empty', 'fields': []}], 'citations': ['empty'], 'min_crossrefs': 2, 'style': 'unsrt'})
+        # every field present but blank; the same with a title / with title and names
+        for keep in ((), ('title',), ('title', 'author', 'editor')):
+            fs = [[f, VALUES.get(f, GENERIC)[0] if f in keep else ''] for f in FIELDS]
+            if 'author' in keep:
+                fs += [['author', 'Donald E. Knuth'], ['editor', 'Ed Itor']]
+            cases.append({'op': 'pystyle', 'entries': [{'type': t, 'key': 'blank', 'fields': fs}], 'citations': ['blank'], 'min_crossrefs': 2, 'style': 'unsrt'})
+    import itertools
+    core = ['booktitle', 'publisher', 'year', 'journal', 'school'] + ([] if tier == 'quick' else ['institution', 'howpublished', 'organization', 'note'])
+    for t in TYPES:
+        for mask in itertools.product([False, True], repeat=len(core)):
+            # title and names are real, a subset of the core fields is present but blank, everything else is absent
+            fs = [['title', 'T'], ['author', 'A B']] + [[f, ''] for f, m in zip(core, mask) if m]
+            cases.append({'op': 'pystyle', 'entries': [{'type': t, 'key': 'blank', 'fields': fs}], 'citations': ['blank'], 'min_crossrefs': 2, 'style': 'unsrt'})
     info['exhaustive'] = False
     info['scope'] = '%d systematic cases (17 types x full / empty entry x styles) + seeded random databases' % len(cases)
     for _ in range(1200 if tier == 'quick' else 25000):
@@ -556,5 +588,23 @@ def gen_cases(tier, rng, info):
     return cases
 
 
-LEVEL_TEXT = 'filled when the proofs are registered'
-LEVEL_NOTE = ''
+LEVEL_TEXT = ('Machine-checked proofs (Lean 4) over an executable model of the Python formatting engine: the template evaluator '
+              '(join/words/toplevel, together, sentence, field, names, optional, first_of, tag, href, name_part over the rich-text model of C08), '
+              'Text.from_latex, the sorting styles none / author_year_title, the label styles number / alpha and BaseStyle.format_bibliography = '
+              'resolve (C05) -> drop missing -> sort -> label -> template.  Proved for ALL databases, citation lists, templates and name templates: '
+              'one formatted entry per resolved citation, citation order resp. stable sort by the key triple (a strict total order), number labels '
+              '1..n distinct, alpha labels distinct under an explicit decidable proviso, FieldIsMissing characterised exactly (which node, which entry), '
+              'terminating punctuation for sentence-built templates, protected text untouched, every printed field value occurs in the output.  The '
+              'model is tied to the code by a correspondence check over all 17 entry types x 4 styles x label / sorting / name styles in which the '
+              'templates of the live style objects are serialised and evaluated by the Lean evaluator.')
+LEVEL_NOTE = ('Trusted: Lean kernel; axioms propext/Classical.choice/Quot.sound only; the hand-written model corresponds to the Python code only as '
+              'far as the differential check explores; the templates get_<type>_template(entry) and the name-style templates are INPUTS of the '
+              'evaluator (the theorems quantify over all templates; that the shipped templates satisfy endsInSentence is not part of the proof: '
+              'about 89% of the sampled live templates do, the others end in words["In", sentence[...]] whose termination depends on the last '
+              'sentence being non-empty); latexcodec decode = identity; ASCII case mapping.  The model follows the code with proposed fixes C05-1 / '
+              'C14-1 / C14-2 / C08-1..5 applied.  Alpha labels are NOT always distinct: C07_alpha_labels_partial + C07_alpha_labels_neg, known '
+              'finding C07-alpha-suffix-collision (a unique base label equal to a repeated one plus its suffix letter).  Field coverage is stated '
+              'on str(text) for the field nodes on the successful path (printed); the URL of an href (link target, not text) and abbreviated name '
+              'parts are excluded; a names node is required of the entry itself (no crossref inheritance) by design of the code.  Not proved: '
+              'that evalFuel = 1000 suffices for every template (C07_fuel_irrelevant shows fuel never changes a result; the model reports '
+              'out-of-fuel as its own error, never observed), the alpha base labels format_label themselves (only the suffix loop), backends (C09).')
